@@ -9,7 +9,7 @@ From Texel Require Import Chess.Types Chess.Position Chess.PositionSpec Chess.Po
   Chess.BitBoardProofs Chess.RayProofs Chess.MagicSweep Chess.MagicProofs Chess.MoveGenProofs Chess.AttackProofs
   Chess.SliderProofs Chess.PawnProofs Chess.PseudoProofs Chess.MakeSpecProofs Chess.TryMoveProofs Chess.CastleProofs
   Chess.LegalProofs Chess.ShortcutProofs Chess.IsLegalProofs Chess.CapturesProofs Chess.NoDupProofs Chess.WfProofs Chess.IsLegalFull Chess.EvasionsIn Chess.CapChecksSub
-  Chess.IsLegalAll Chess.RemoveIllegalIndep Chess.EvasionsComplete Chess.GivesCheckProofs gen.BitBoardTables.
+  Chess.IsLegalAll Chess.RemoveIllegalIndep Chess.EvasionsComplete Chess.GivesCheckProofs Chess.CapChecksComplete gen.BitBoardTables.
 Import ListNotations.
 Local Open Scope N_scope.
 
@@ -265,10 +265,6 @@ Print Assumptions C01_captures_complete.
 (** * Full statements not (yet) proved: carried by the correspondence against the Spec
 
     Remaining gaps, each tied to the Spec on every run by the correspondence check:
-    - C01_captures_checks_complete: which pseudo-legal moves the generator contains
-      (discovered-check masks); that it generates pseudo-legal moves only is
-      C01_generators_sub, that removeIllegal keeps exactly the legal ones of whatever it
-      contains is C01_removeIllegal_sublist / C01_removeIllegal_independent;
     - C01_givesCheck: promotions, e.p. captures and castling (the rest is C01_givesCheck_partial). *)
 
 (** C01_nodup: no duplicates in the pseudo-legal list of a well-formed position (distinct
@@ -314,6 +310,16 @@ Theorem C01_removeIllegal_independent : forall zk p ml,
 Proof. exact removeIllegal_twin. Qed.
 Print Assumptions C01_removeIllegal_independent.
 
+(** C01_legal_exact without any assumption on the Zobrist tables or the redundant fields: the
+    legal list is exactly the set of legal moves, is the pseudo-legal list filtered by the
+    Spec's legality, and has no duplicates *)
+Theorem C01_legal_exact_any : forall zk p, WF p ->
+  let r := removeIllegal zk p (pseudoLegalMoves p) in
+  (forall m, In m (snd r) <-> legal_spec (abs p) m) /\
+  snd r = filter (legal_specb (abs p)) (pseudoLegalMoves p) /\ NoDup (snd r).
+Proof. exact legal_exact_any. Qed.
+Print Assumptions C01_legal_exact_any.
+
 (** C01_evasions_complete: when the side to move is in check, removeIllegal (checkEvasions p)
     is exactly the set of legal moves: every legal move is generated (king moves; a non-king
     move must capture the single checking piece or land between it and the king - validTargets -
@@ -324,9 +330,18 @@ Theorem C01_evasions_complete : forall zk p m, WF p -> inCheck p = true ->
 Proof. exact evasions_complete. Qed.
 Print Assumptions C01_evasions_complete.
 
-Definition C01_captures_checks_complete_statement : Prop :=
-  forall zk p m, WF p -> legal_spec (abs p) m -> captureCheckClass (abs p) m = true ->
+(** C01_captures_checks_complete: every legal move of the class of pseudoLegalCapturesAndChecks
+    - captures incl. en passant, promotions to queen or knight, moves that give check (rook /
+    bishop under-promotions are outside the class by the generator's contract) - is in the
+    legality-filtered list, for any Zobrist tables and any redundant fields.  A quiet
+    non-special move gives check iff it is a direct check (target in the king's rook / bishop /
+    knight / pawn attack set) or a discovered check (from-square in the [discovered] set:
+    C01-level characterisation from the proof of C01_givesCheck_partial); captures, promotions
+    and castling are generated unconditionally. *)
+Theorem C01_captures_checks_complete : forall zk p m, WF p -> legal_spec (abs p) m -> captureCheckClass (abs p) m = true ->
     In m (snd (removeIllegal zk p (pseudoLegalCapturesAndChecks p))).
+Proof. exact captures_checks_complete. Qed.
+Print Assumptions C01_captures_checks_complete.
 
 (** gives-check verdict for the moves the engine may play (legal moves) *)
 Definition C01_givesCheck_statement : Prop :=
